@@ -772,15 +772,19 @@ func File(errBuf *strings.Builder, validName, objName, fieldName string, tv refl
 		return
 	}
 	valStr := tv.String()
+	_, _, cusMsg := ParseValidNameKV(validName)
 	isDir, err := dir(valStr)
 	if err != nil {
+		if cusMsg != "" { // 自定义消息优先
+			errBuf.WriteString(GetJoinValidErrStr(objName, fieldName, valStr, cusMsg))
+			return
+		}
 		errBuf.WriteString(GetJoinValidErrStr(objName, fieldName, valStr, err.Error()))
 		return
 	}
 	if !isDir {
 		return
 	}
-	_, _, cusMsg := ParseValidNameKV(validName)
 	if cusMsg != "" {
 		errBuf.WriteString(GetJoinValidErrStr(objName, fieldName, valStr, cusMsg))
 		return
@@ -795,15 +799,19 @@ func Dir(errBuf *strings.Builder, validName, objName, fieldName string, tv refle
 		return
 	}
 	valStr := tv.String()
+	_, _, cusMsg := ParseValidNameKV(validName)
 	isDir, err := dir(valStr)
 	if err != nil {
+		if cusMsg != "" { // 自定义消息优先
+			errBuf.WriteString(GetJoinValidErrStr(objName, fieldName, valStr, cusMsg))
+			return
+		}
 		errBuf.WriteString(GetJoinValidErrStr(objName, fieldName, valStr, err.Error()))
 		return
 	}
 	if isDir {
 		return
 	}
-	_, _, cusMsg := ParseValidNameKV(validName)
 	if cusMsg != "" {
 		errBuf.WriteString(GetJoinValidErrStr(objName, fieldName, valStr, cusMsg))
 		return
